@@ -6,5 +6,5 @@ VARIABLE c
 Init == c \in Cases
 Next == UNCHANGED c
 Emit == PrintT(ToJson([ops |-> c.ops, value |-> c.value, root |-> c.root, rkey |-> c.rkey,
-                       verdict |-> VerdictOf(c), demand |-> Demand(c)]))
+                       verdict |-> VerdictOf(c), mverdict |-> MechVerdictOf(c), demand |-> Demand(c)]))
 =============================================================================
